@@ -514,6 +514,7 @@ func (d *Driver) Apply(o *Op) (resp Resp) {
 		return Resp{Panic: "instance poisoned by an earlier panic"}
 	}
 	d.installSeams(o.Coins)
+	yield("request") // a request boundary is a scheduling point
 	defer func() {
 		if r := recover(); r != nil {
 			if r == gcDone {
